@@ -1117,6 +1117,10 @@ def do_lift(code, d, rec):
         if depth != 0:
             raise WeaveError('lost anchor: lift-range %r .. %r does not end at the nesting level it starts at' % (anchor, end_anchor))
         rec['transformations'].append({'rule': 'E9', 'what': 'statements from %r up to (not including) %r lifted to `%s`' % (anchor, end_anchor, sig)})
+        if 'tail' in rest:
+            tail = rest[rest.index('tail') + 1]
+            rec['transformations'].append({'rule': 'E9', 'what': 'the lifted statements use `?` / `return Err`: `%s` appended as the value of the lifted function' % tail})
+            return sig + ' {\n' + code[pos:pos2] + '\n' + tail + '\n}'
         return sig + ' {\n' + code[pos:pos2] + '\n}'
     pos = nth_occurrence(m, anchor, n, 'lift anchor')
     b = m.find('{', pos + len(anchor) - 1) if not anchor.rstrip().endswith('{') else pos + len(anchor.rstrip()) - 1
@@ -1132,7 +1136,9 @@ def do_lift(code, d, rec):
                     ob = bm.find('{', st)
                     if ob >= 0 and ob < mm.start() <= match_close(bm, ob):
                         raise WeaveError('E14: `continue` inside a nested loop of %r' % anchor)
-        if re.search(r'\bbreak\b', bm) or re.search(r'\breturn\b', bm):
+        if re.search(r'\bbreak\b', bm) or (re.search(r'\breturn\b', bm) and 'tail' not in rest):
+            # with `tail` the lifted function returns the enclosing function's Result: a `return Err(..)` of the body keeps its meaning
+            # (the loop shell is `for x in xs { body(x)?; }`)
             raise WeaveError('E14: loop body of %r contains break/return' % anchor)
         out = []
         last = 0
